@@ -236,8 +236,8 @@ FORMS_USED = {}
 def mk_event(spec: dict):
     """The Event a spec denotes. The FORM in which start and duration are handed to Event varies with the spec (a
     function of its numbers, so that a replay builds the same thing): mostly an aware datetime and a timedelta, but
-    about a quarter of the events get their start as an ISO 8601 string carrying the offset (or, when the offset is
-    zero, as a naive datetime, which the library reads as UTC) or their duration as a float / int number of seconds -
+    about a quarter of the events get their start as an ISO 8601 string carrying the offset (or Z; never a naive
+    datetime or a zone-less string: no property says what those denote) or their duration as a float / int number of seconds -
     every form Event's signature accepts denotes the same event."""
     from aw_core.models import Event
     ts = mk_dt(spec["ts"], spec.get("off", 0), spec.get("zone"))
@@ -248,7 +248,7 @@ def mk_event(spec: dict):
         if h == 0:
             ts, form = ts.isoformat(), "iso-string"
         elif h == 1 and spec.get("off", 0) == 0:
-            ts, form = ts.replace(tzinfo=None), "naive-datetime"
+            ts, form = ts.isoformat().replace("+00:00", "Z"), "iso-string-with-Z"
         elif h == 1:
             ts, form = ts.isoformat().replace("T", " "), "iso-string-with-space"
         elif h == 2:
@@ -361,6 +361,30 @@ def batch_edge(rng, cap):
     base = rng.choice([b for b in BATCH_EDGES if b <= cap] or [cap])
     k = rng.choice([k for k in (1, 1, 2, 3, 4) if base * k <= cap] or [1])
     return max(0, base * k + rng.choice([0, 0, 0, -1, 1]))
+
+
+ID_MODES = ["unique", "unique", "unique", "some", "some", "none", "few", "same", "across"]
+
+
+def id_mode(rng):
+    """how the events of one list carry ids: all different, some without, none, only a few distinct ones (pieces cut from
+    the same stored event keep its id; events of several buckets put together), all the same, the same numbers as in the
+    other list"""
+    return rng.choice(ID_MODES)
+
+
+def pick_id(rng, mode, i, idbase):
+    if mode == "unique":
+        return idbase + i
+    if mode == "some":
+        return idbase + i if rng.random() < 0.6 else None
+    if mode == "few":
+        return idbase + rng.randrange(0, 3)
+    if mode == "same":
+        return idbase
+    if mode == "across":
+        return i % 4
+    return None
 
 
 def big_n(rng, n, p=0.004, sizes=(120, 257, 600)):
